@@ -1,6 +1,10 @@
 package bmtree
 
-import "github.com/openacid/low/bitmap"
+import (
+	"math"
+
+	"github.com/openacid/low/bitmap"
+)
 
 // NewPath creates a path, which is a uint64, from node searching path, path
 // length and tree height.
@@ -15,6 +19,16 @@ func NewPath(searchingBits uint64, length, height int32) uint64 {
 //
 // Since 0.1.9
 func PathOf(s string, frombit int32, height int32) uint64 {
+	if int64(frombit)+int64(height) > math.MaxInt32 {
+		// the end bit does not fit the int32 FromStr32 takes: gather the bits here
+		var plen int32
+		var path uint64
+		for i := int64(frombit); plen < height && i>>3 < int64(len(s)); i++ {
+			path = path<<1 | uint64(s[i>>3]>>uint(7-i&7)&1)
+			plen++
+		}
+		return NewPath(path<<uint(height-plen), plen, height)
+	}
 	plen, path := bitmap.FromStr32(s, frombit, frombit+height)
 	return NewPath(path, plen, height)
 }
